@@ -9,6 +9,7 @@ mod ledger;
 mod e_heap;
 mod e_recycle;
 mod e_conc;
+mod e_adv;
 #[global_allocator]
 static GLOBAL: ledger::Ledger = ledger::Ledger;
 
@@ -54,6 +55,8 @@ fn main() {
         "heap-replay" => e_heap::heap_replay(&mut out),
         "recycle-one" => e_recycle::recycle_one(&mut out, arg(&args, "--rounds", 1000), arg(&args, "--factor", 1)),
         "recycle" => e_recycle::recycle(&mut out, seed, n, arg(&args, "--rounds", 1000), arg(&args, "--factor", 100)),
+        "adv" => e_adv::adv(&mut out, seed, n),
+        "adv-iter" => e_adv::adv_iter(&mut out, seed, n),
         "conc" => e_conc::conc(&mut out, seed, n),
         "escapes" => e_fmt::escapes(&mut out),
         "fmt" => e_fmt::fmt_cases(&mut out, seed, n, !flag(&args, "--no-pairs")),
